@@ -178,6 +178,12 @@ def run(ctx):
         ctx.assume('R-DOM', 'D1', func, node, f'gate::{norm(node.test)}',
                    f'mode-related test in {func.qualname}', detail=text)
     ctx.floor('C11 mutating public entry points', len(mut_entries), 14)
+    # D5: the cached map is mode-derived per context: it is released on *every* exit of the opener (a writable map
+    # that survives a GeneratorExit/KeyboardInterrupt would be served to later operations of a handle switched to 'r')
+    from ..escape import pair_obligations, find_opener
+    pair_obligations(ctx, 'D5')
+    from ._shared import opener_default_mode
+    opener_default_mode(ctx, 'D5', find_opener(ctx)[0])
     ctx.floor('C11 effect sites under entries', nsites, 25)
     ctx.info['entries'] = [f.qualname for f in mut_entries]
     ctx.info['effect_sites_under_entries'] = nsites
